@@ -205,6 +205,19 @@ def run(ctx, ck) -> None:
             o.rule = f'{ck.pid}.M9'
             ck.obs.append(o)
     ck.floor('M9', sum(1 for o in ck.obs if o.rule.endswith('M9')), 6, 'composition-construction obligations')
+    # M10: a pair of polarimetry operators is only deleted by a rule when its product is the identity for the angles at hand
+    # (shared with C01.R-DEL, restricted to the rules of the polarimetry modules)
+    from . import c01
+
+    sub = type(ck)(ck.pid)
+    prules = table.rules()
+    pinfos = {r.qual: c01.rule_info(table, r) for r in prules}
+    c01._r_del(sub, world, table, prules, pinfos)
+    for o in sub.obs:
+        if 'furax.operators.' in o.construct:
+            o.rule = f'{ck.pid}.M10'
+            ck.obs.append(o)
+    ck.counts['M10:pair deletions by polarimetry rules (none on the reference tree)'] = sum(1 for o in ck.obs if o.rule.endswith('M10'))
 
 
 def _call_create(pol: Polarimetry, cls: ClassInfo, angles: Any, stokes: str) -> Any:
